@@ -40,7 +40,7 @@ Proof. cbn. unfold notes. now rewrite notify_snapshot, map_map. Qed.
 Lemma complete_subs s o : subs (complete s o) = after_notify (subs s).
 Proof. reflexivity. Qed.
 
-Definition plain (k : cbkind) : bool := match k with CbOk | CbRaise _ => true | _ => false end.
+Definition plain (k : cbkind) : bool := match k with CbOk | CbRaise _ | CbSet _ _ _ => true | _ => false end.
 
 (* subscribers that only return or raise leave the subscription list as it was *)
 Lemma notify_plain snap : forall live,
@@ -228,6 +228,7 @@ Fixpoint recls (f : xcls -> xcls) (k : cbkind) : cbkind :=
   | CbUnsub t => CbUnsub t
   | CbSub id k' => CbSub id (recls f k')
   | CbSeq a b => CbSeq (recls f a) (recls f b)
+  | CbSet t o g => CbSet t o g
   end.
 Definition recls_sub (f : xcls -> xcls) (sb : sub) : sub := (fst sb, recls f (snd sb)).
 Definition recls_op (f : xcls -> xcls) (o : op) : op :=
@@ -254,7 +255,7 @@ Qed.
 Lemma run_cb_recls f k : forall live,
   run_cb (recls f k) (map (recls_sub f) live) = (map (recls_sub f) (fst (run_cb k live)), snd (run_cb k live)).
 Proof.
-  induction k as [|c|t|id k IH|a IHa b IHb]; intros live; cbn; auto.
+  induction k as [|c|t|id k IH|a IHa b IHb|t o g]; intros live; cbn; auto.
   - rewrite remove_first_recls. destruct (remove_first t live); auto.
   - rewrite map_app. reflexivity.
   - rewrite IHa. destruct (run_cb a live) as [l1 r]. cbn. destruct r; auto.
